@@ -56,6 +56,8 @@ pub enum Op {
     /// 0 = none, 1 = timeout-1, 2 = timeout, 3 = timeout+1, 4 = given ms
     Advance(u8, u16),
     Reconnect,
+    /// a new connection pre-empts the old session (the old connection is still open when the server hands over)
+    Preempt,
 }
 
 #[derive(Clone, Debug, Serialize, Deserialize)]
@@ -199,6 +201,7 @@ impl Prop for Sbo {
             2 => Just(Op::RepeatLast),
             3 => (0u8..5, any::<u16>()).prop_map(|(k, ms)| Op::Advance(k, ms)),
             1 => Just(Op::Reconnect),
+            1 => Just(Op::Preempt),
         ];
         let n = if tier == Tier::Quick { 28 } else { 80 };
         (
@@ -674,6 +677,13 @@ async fn run_case(case: &Case) -> CaseOut {
                 rig.connect().await;
                 last_fragment = None;
                 disarm!("reconnect");
+            }
+            Op::Preempt => {
+                // no disconnect first: the server task drops the running session for the new one
+                rig.connect().await;
+                last_fragment = None;
+                disarm!("reconnect");
+                out.label("preempted");
             }
         }
         // nothing but OPERATE may reach operate(SelectBeforeOperate)
